@@ -427,7 +427,9 @@ fn ensure_te(m: &mut Msg) -> usize {
 
 thread_local! {
     /// exploration / sensitivity aid: VP_C03_NO_EXCLUSIONS=1 applies every form
-    static KNOWN: std::cell::Cell<bool> = std::cell::Cell::new(std::env::var("VP_C03_NO_EXCLUSIONS").is_err());
+    // all seven findings this switch steered around are repaired in sozu (see known_findings.jsonl, `fixed`):
+    // nothing is excluded any more unless VP_C03_EXCLUSIONS is set (to reproduce the old behaviour on an old tree)
+    static KNOWN: std::cell::Cell<bool> = std::cell::Cell::new(std::env::var("VP_C03_EXCLUSIONS").is_ok());
 }
 
 /// Transfer-Encoding forms sozu forwards without reading them the way a backend will (known finding)
